@@ -148,7 +148,10 @@ def expected(tree, fmt, lang='en'):
             if head is not None:
                 n['head_left'] = head
             return n
-        return codecs.B(cat, label, head, kids[0], kids[1])
+        n = codecs.B(cat, label, head, kids[0], kids[1])
+        if fmt == 'prolog' and lang == 'en' and node.op_string == 'conj' and node.cat.is_functor:
+            n['conj_arg'] = prolog_cat_en(node.cat.left)
+        return n
     return rec(tree)
 
 
@@ -198,6 +201,14 @@ def compare(exp, got, fmt, path='root'):
         out.append(('label', f'{path}: rule label {got.get("label")!r}, expected {exp["label"]!r}'))
     if exp.get('head_left') is not None and got.get('head_left') is not None and exp['head_left'] != got['head_left']:
         out.append(('head', f'{path}: head_is_left {got["head_left"]}, expected {exp["head_left"]}'))
+    # LangPro terms repeat categories: lx(cat, CHILD, term) names the category of the term it wraps, and the lp term
+    # inside lx(..., lp(..)) carries the category of its right part; conj(cat, ARG, ..) repeats the argument of cat
+    if 'child_cat' in got and got['child_cat'] != exp['child']['cat']:
+        out.append(('category', f'{path}: lx names its child category {got["child_cat"]!r}, the child is {exp["child"]["cat"]!r}'))
+    if 'lp_cat' in got and not (got['lp_cat'] == got.get('lx_cat') == exp['r']['cat']):
+        out.append(('category', f'{path}: lx/lp name the inner category {got.get("lx_cat")!r}/{got["lp_cat"]!r}, the right part is {exp["r"]["cat"]!r}'))
+    if 'conj_arg' in got and exp.get('conj_arg') is not None and got['conj_arg'] != exp['conj_arg']:
+        out.append(('category', f'{path}: conj names the argument {got["conj_arg"]!r}, expected {exp["conj_arg"]!r}'))
     if exp['k'] == 'U':
         return out + compare(exp['child'], got['child'], fmt, path + '/0')
     return out + compare(exp['l'], got['l'], fmt, path + '/0') + compare(exp['r'], got['r'], fmt, path + '/1')
